@@ -23,12 +23,12 @@ entity User in [Group] {
   name: String, age: Long, active: Bool,
   nick?: String, score?: Long, flag?: Bool,
   d: decimal, od?: decimal, ip: ipaddr, oip?: ipaddr, dt: datetime, odt?: datetime, du: duration, odu?: duration,
-  labels: Set<String>, onums?: Set<Long>,
+  labels: Set<String>, onums?: Set<Long>, friends: Set<User>, teams: Set<Group>,
   manager?: User, home: Group,
   addr: { city: String, zip?: Long }, oaddr?: { city: String, zip?: Long },
   "__tag:k"?: Long
 } tags Long;
-entity Doc in [Folder] { owner: User, size: Long, label?: String, name?: String } tags String;
+entity Doc in [Folder] { owner: User, size: Long, label?: String, name?: String, viewers: Set<User>, folders: Set<Folder> } tags String;
 entity Folder in [Folder];
 action view, edit in [readWrite] appliesTo { principal: [User, Group], resource: [Doc, Folder], context: { ok: Bool, n?: Long, who?: User, rec: { a: Long, b?: String }, "a.b": { c?: Long }, a: { b: { c?: Long } } } };
 action readWrite;
@@ -79,6 +79,12 @@ func userAttrs(variant int) types.RecordMap {
 		"d": mustDec("1.5"), "ip": mustIP("10.0.0.1"), "dt": types.NewDatetimeFromMillis(-1), "du": types.NewDurationFromMillis(1000),
 		"labels": types.NewSet(types.String("a")), "home": uid("Group", "g1"),
 		"addr": types.NewRecord(types.RecordMap{"city": types.String("x")}),
+		// sets of entities: empty in the even variants (the empty set belongs to every set type)
+		"friends": types.NewSet(), "teams": types.NewSet(),
+	}
+	if variant%2 == 1 {
+		m["friends"] = types.NewSet(uid("User", "u2"))
+		m["teams"] = types.NewSet(uid("Group", "g1"), uid("Group", "g2"))
 	}
 	opt := map[string]types.Value{
 		"nick": types.String("al"), "score": types.Long(gen.MaxI), "flag": types.False, "od": mustDec("-0.0001"), "oip": mustIP("::1"),
@@ -153,8 +159,10 @@ func buildEnvs() {
 						u2 := types.Entity{UID: uid("User", "u2"), Parents: types.NewEntityUIDSet(), Attributes: types.NewRecord(userAttrs((uv + 1) % 8)), Tags: types.NewRecord(types.RecordMap{})}
 						g1 := types.Entity{UID: uid("Group", "g1"), Parents: types.NewEntityUIDSet(uid("Group", "g2"))}
 						g2 := types.Entity{UID: uid("Group", "g2")}
-						dattrs := types.RecordMap{"owner": uid("User", "u1"), "size": types.Long(5)}
+						dattrs := types.RecordMap{"owner": uid("User", "u1"), "size": types.Long(5), "viewers": types.NewSet(), "folders": types.NewSet()}
 						if dv == 1 {
+							dattrs["viewers"] = types.NewSet(uid("User", "u2"))
+							dattrs["folders"] = types.NewSet(uid("Folder", "f1"))
 							dattrs["label"] = types.String("L")
 							dattrs["name"] = types.String("doc")
 						}
@@ -967,6 +975,57 @@ func guardCombinations() *core.Family {
 	}
 }
 
+// guards whose type is a singleton boolean: when the validator types `g` as False (or True)
+// it does not look at the operand that `g && x`, `!g || x`, `if g then x else ..` never
+// evaluates. If `g` can in fact hold at run time, an ill-typed `x` runs. The guards are every
+// == / != between two entity-typed or set-of-entity-typed operands (disjoint or overlapping
+// types; the conforming stores hold empty and non-empty sets) and every `is` test.
+func singletonGuards() *core.Family {
+	ops := []*Expr{
+		Var("principal"), Var("resource"), path("principal", "home"), path("principal", "manager"), path("resource", "owner"), L(Entity("User", "u1")), L(Entity("Group", "g1")),
+		path("principal", "friends"), path("principal", "teams"), path("resource", "viewers"), path("resource", "folders"), path("principal", "labels"),
+		SetLit(Var("principal")), SetLit(L(Entity("Group", "g1"))), SetLit(Var("resource")),
+	}
+	bads := []*Expr{
+		Bin(OLt, path("principal", "name"), L(Long(1))),
+		Bin(OLt, path("principal", "friends"), L(Long(0))),
+		Bin(OEq, Access(Var("principal"), "nosuch"), L(Long(1))),
+	}
+	type form struct {
+		name string
+		f    func(g, bad *Expr) *Expr
+	}
+	forms := []form{
+		{"g&&bad", func(g, b *Expr) *Expr { return Bin(OAnd, g, b) }},
+		{"!g||bad", func(g, b *Expr) *Expr { return Bin(OOr, Un(ONot, g), b) }},
+		{"if-g-bad-true", func(g, b *Expr) *Expr { return If(g, b, L(Bool(true))) }},
+		{"!g&&bad", func(g, b *Expr) *Expr { return Bin(OAnd, Un(ONot, g), b) }},
+		{"g||bad", func(g, b *Expr) *Expr { return Bin(OOr, g, b) }},
+		{"if-g-true-bad", func(g, b *Expr) *Expr { return If(g, L(Bool(true)), b) }},
+	}
+	n := len(ops) * len(ops) * 2 * len(bads) * len(forms)
+	return &core.Family{
+		Name: "singleton-typed-guards",
+		Desc: fmt.Sprintf("%d x %d operand pairs (entities and sets of entities of equal, overlapping and disjoint types, from the request, the store and literals) under == and != as the guard of %d ill-typed expressions in %d guard forms; the stores hold empty and non-empty sets", len(ops), len(ops), len(bads), len(forms)),
+		N:    int64(n),
+		Run: func(t *core.T, i int64) {
+			x := int(i)
+			f := forms[x%len(forms)]
+			x /= len(forms)
+			b := bads[x%len(bads)]
+			x /= len(bads)
+			op := []Op{OEq, ONe}[x%2]
+			x /= 2
+			l, r := ops[x%len(ops)], ops[x/len(ops)]
+			e := f.f(Bin(op, l, r), b)
+			if checkCond(t, "singleton-guard:"+f.name, e, []bool{true}) {
+				t.Nontrivial()
+			}
+			t.SampleF(e.String)
+		},
+	}
+}
+
 func Check() *core.Check {
 	return &core.Check{
 		ID:        "C15",
@@ -986,7 +1045,7 @@ func Check() *core.Check {
 				return []*core.Family{{Name: "setup", Desc: "schema resolves", N: 1, Run: func(t *core.T, i int64) { t.Fail("harness-schema", schemaText, "resolves", e.Error()) }}}
 			}
 			sp := specs()
-			fams := []*core.Family{guards(tier), guardCombinations(), clauseGuards(), tagGuards(), unions(), actionInGuards(), entityInGuards(), capabilityKeys(), depth1("depth1-unary", sp, leaves(), 1)}
+			fams := []*core.Family{guards(tier), guardCombinations(), singletonGuards(), clauseGuards(), tagGuards(), unions(), actionInGuards(), entityInGuards(), capabilityKeys(), depth1("depth1-unary", sp, leaves(), 1)}
 			if tier == "thorough" {
 				fams = append(fams, depth1("depth1-binary", sp, leaves(), 2), depth1("depth1-if", gen.Ternary, leavesSmall(), 3))
 			} else {
